@@ -836,6 +836,18 @@ def case_C17(seed):
         a = U.canon(mt, res)
         if not (isinstance(res, tuple) and len(res) == 2 and isinstance(res[0], list) and isinstance(res[1], int)):
             viol.append(('C17:result-is-not-a-(list,index)-pair', f"match returned {res!r}", {'case': U.case_repr(case), 'result': repr(res)}))
+        if seed % 3 == 0 and not viol:
+            # 'matching returns without raising' also when the same matcher is asked again: another match on a prefix,
+            # an extension, a widening - whatever the first call returned (including "nothing matched")
+            mt2 = U.make_matcher(U.make_map(case['graph']), case['cfg'])
+            ops2 = gen_history(rnd, case, allow_cwd=False)
+            done2 = []
+            for op in ops2 + [('extend', len(case['trace'])), ('widen', (case['cfg'].get('max_lattice_width') or 1) + 1)]:
+                done2.append(op)
+                r2 = apply_op(mt2, case, op)
+                if not (r2 is None or r2 == 'skipped' or (isinstance(r2, tuple) and len(r2) == 2 and isinstance(r2[0], list) and isinstance(r2[1], int))):
+                    viol.append(('C17:result-is-not-a-(list,index)-pair', f"after {done2}: returned {r2!r}", {'case': U.case_repr(case), 'ops': done2}))
+                    break
     except Exception as e:
         import traceback
         viol.append((f'C17:match-raised-{type(e).__name__}', f"match raised {e!r}", {'case': U.case_repr(case), 'error': repr(e),
